@@ -239,7 +239,7 @@ AItOpen(e) ==
        /\ its' = IF e.res.kind = "ok"
                  THEN Put(its, e.it, [seg |-> p.seg, list |-> p.list,
                                       actual |-> ListDocs(p.list) \ p.except, except |-> p.except,
-                                      idx |-> 0,
+                                      idx |-> 0, onehit |-> e.onehit,
                                       flags |-> [freq |-> e.freq, norm |-> e.norm, locs |-> e.locs],
                                       reuse |-> reuse])
                  ELSE its
@@ -252,7 +252,10 @@ AItReplace(e) ==
     /\ its' = IF e.res.kind = "ok"
               THEN [its EXCEPT ![e.it].actual = {e.docs[k] : k \in DOMAIN e.docs}]
               ELSE its
-    /\ obs' = Obs("it_replace", {"C05"}, IF e.res.kind = "ok" THEN {} ELSE {"C05"}, <<>>, e.res)
+    \* contract: only a general (not 1-hit) iterator has an actual bitmap; a generator that replaces it
+    \* on a 1-hit iterator is at fault, not ice
+    /\ obs' = Obs("it_replace", {"C05"},
+                  IF its[e.it].onehit THEN {"GEN"} ELSE IF e.res.kind = "ok" THEN {} ELSE {"C05"}, <<>>, e.res)
     /\ UNCHANGED <<segs, files, pls, dvrs, bms, built, digs>>
 
 \* what a posting looks like through the iterator's flags
